@@ -68,7 +68,16 @@ def slice_impl(ctx, rule, F, cfg):
                     for s in sym.subterms(newv):
                         if call_is(s, "index") and s[3][1][0] == "agg" and s[3][1][2] == "RangeFrom":
                             cut = addends(s[3][1][3][0])
+                            # `let (head, rest) = self.split_at(k); *self = &rest[c..]`: k + c bytes are cut
+                            base = strip_wrappers(s[3][0])
+                            if base[0] == "pl" and call_is(base[1], "split_at") and fields_of(base)[-1:] == ("1",):
+                                k = addends(base[1][3][1])
+                                cut = (sorted(cut[0] + k[0]), cut[1] + k[1])
                             break  # outermost
+                    if cut is None:
+                        nv = strip_wrappers(newv)
+                        if nv[0] == "pl" and call_is(nv[1], "split_at") and fields_of(nv)[-1:] == ("1",):
+                            cut = addends(nv[1][3][1])
                     empty = strip_wrappers(newv)[0] == "array" and not strip_wrappers(newv)[1] or (strip_wrappers(newv)[0] == "c" and "[]" in str(strip_wrappers(newv)[2]))
                     if cut is not None:
                         ctx.ob(rule, site + ":consumed=advanced", ok and amount == cut, "bytes cut from the slice %s must equal the amount added to the position %s" % (cut, amount), loc=b.loc(pos[0][4]), config=cfg)
@@ -81,8 +90,9 @@ def slice_impl(ctx, rule, F, cfg):
                 # returned bytes exclude the delimiter: self[..i] with i+1 consumed
                 if rv[:1] == ("Ok",) or "UpToMarkup" in rv:
                     rt = [s for s in sym.subterms(r) if call_is(s, "index") and s[3][1][0] == "agg" and s[3][1][2] == "RangeTo"]
-                    if rt and amount is not None and h in ("read_text", "read_with"):
-                        upto = addends(rt[0][3][1][3][0])
+                    sa = [s for s in sym.subterms(r) if s[0] == "pl" and call_is(s[1], "split_at") and fields_of(s)[-1:] == ("0",)]
+                    if (rt or sa) and amount is not None and h in ("read_text", "read_with"):
+                        upto = addends(rt[0][3][1][3][0]) if rt else addends(sa[0][1][3][1])
                         ctx.ob(rule, site + ":delimiter-excluded", amount == (upto[0], upto[1] + 1), "returned bytes are [..i] while i+1 bytes (the delimiter too) are consumed: returned upto %s, consumed %s" % (upto, amount), config=cfg)
     ctx.floor(rule, "slice source helpers", n, 4, config=cfg)
 
